@@ -84,6 +84,7 @@ class OutStreamModel:
         self.expected = 0            # toggle the endpoint accepts next
         self.stream = bytearray()    # bytes the endpoint has to deliver (payloads of ACKed new packets)
         self.observed = bytearray()  # bytes seen leaving the endpoint's stream
+        self.framing = []            # (byte, first, last) of every beat leaving the endpoint's stream
         self.sent = 0                # position counter for tagging
         self.last_payload = b""
         self.last_toggle = None
@@ -116,11 +117,19 @@ class SignalInModel:
 # ------------------------------------------------------------------------------------------------ host
 
 class Host(UTMIHost):
-    """UTMIHost that reports every packet it has put on the wire to a callback."""
+    """UTMIHost that reports every packet it has put on the wire to a callback and remembers the exact byte timing
+    (gap list, lead-in) of the last packet so that it can be replayed identically on another device."""
     on_sent = None
+    last_detail = None
 
-    def send_raw(self, data, **kw):
-        yield from super().send_raw(data, **kw)
+    def send_raw(self, data, *, gaps=None, lead=None, **kw):
+        data = bytes(data)
+        if not (isinstance(gaps, list)):
+            gaps = self._gaps(len(data), gaps)          # same draw order as UTMIHost.send_raw: gaps first, then lead
+        if lead is None:
+            lead = self.rng.choice([1, 1, 1, 2, 3]) if self.gap_profile != "none" else 1
+        self.last_detail = (list(gaps), lead)
+        yield from super().send_raw(data, gaps=list(gaps), lead=lead, **kw)
         if self.on_sent is not None:
             self.on_sent(self.sent[-1][1])
 
@@ -140,9 +149,19 @@ LAYOUTS = [
 
 
 class Session:
-    def __init__(self, rng, res, *, tier="quick", fs60=None):
+    def __init__(self, rng, res, *, tier="quick", fs60=None, cfg=None):
         self.rng, self.res = rng, res
         self.ops_log = []
+        self.focus = None            # OUT endpoint whose own transactions are recorded for the non-interference replay
+        self.focus_script = []
+        if cfg is not None:
+            # an identical second device (same configuration) for replaying one endpoint's own transactions alone
+            self.cfg = {k: (dict(v) if isinstance(v, dict) else v) for k, v in cfg.items()}
+            self.fs60 = cfg["fs60"]
+            self.in_numbers, self.out_numbers = tuple(cfg["in"]), tuple(cfg["out"])
+            self.sig_number, self.absent = cfg["sig"][0], ()
+            self._init_state()
+            return
         self.fs60 = (rng.random() < 0.15) if fs60 is None else fs60
         lay = rng.choice(LAYOUTS)
         self.in_numbers, self.out_numbers, self.sig_number, self.absent = lay
@@ -157,6 +176,9 @@ class Session:
             "feed": {n: rng.choice(["dense", "dense", "gappy", "sparse"]) for n in self.in_numbers},
             "order_seed": rng.randrange(1 << 16),
         }
+        self._init_state()
+
+    def _init_state(self):
         self.addr = 0
         self.models = {}
         self.eps = {}
@@ -226,7 +248,7 @@ class Session:
                 b.watch(ep.stream.valid, ep.stream.ready, ep.stream.payload, ep.stream.last)
                 b.add_driver(self._feeder(key, ep, m), main=False)
             elif m.kind == "out":
-                b.watch(ep.stream.valid, ep.stream.ready, ep.stream.payload)
+                b.watch(ep.stream.valid, ep.stream.ready, ep.stream.payload, ep.stream.first, ep.stream.last)
                 b.add_driver(self._consumer(key, ep, m), main=False)
             else:
                 b.watch(ep.signal)
@@ -319,6 +341,7 @@ class Session:
                 s = self.eps[key].stream
                 if b.get(s.valid) and b.get(s.ready):
                     m.observed.append(b.get(s.payload))
+                    m.framing.append((b.get(s.payload), b.get(s.first), b.get(s.last)))
                     res.event("out_stream_bytes_delivered")
 
     def _lt(self):
@@ -553,7 +576,9 @@ class Session:
                 data = bytes(tag(16 + n, m.sent + i) for i in range(length)) if payload is None else payload[:m.mps]
         before = len(m.observed) if m is not None else 0
         yield from h.token(U.OUT, addr, n)
-        yield from h.idle(rng.randint(1, 4) if not self.fs60 else rng.randint(3, 20))
+        step = {"kind": "out", "token": h.last_detail, "idle": rng.randint(1, 4) if not self.fs60 else rng.randint(3, 20),
+                "data": None, "detail": None}
+        yield from h.idle(step["idle"])
         pkt_bytes = bytearray(U.data(DATA_PID[toggle], data))
         if fault == "crc":
             i = rng.randrange(1, len(pkt_bytes))
@@ -564,6 +589,9 @@ class Session:
                 pkt_bytes[-1] ^= 0x10
         if fault != "no_data":
             yield from h.send_raw(bytes(pkt_bytes))
+            step["data"], step["detail"] = bytes(pkt_bytes), h.last_detail
+        if key == self.focus and addr == self.addr:
+            self.focus_script.append(step)
         pkt = yield from h.wait_response(self.window)
         info = U.classify(pkt.data) if pkt is not None else {"kind": "none"}
         what = self._describe(info)
@@ -648,6 +676,8 @@ class Session:
         addr = self.addr if addr is None else addr
         m = self.models.get((n, "out")) if addr == self.addr else None
         yield from h.token(U.PING, addr, n)
+        if (n, "out") == self.focus and addr == self.addr:
+            self.focus_script.append({"kind": "ping", "token": h.last_detail})
         pkt = yield from h.wait_response(self.window)
         info = U.classify(pkt.data) if pkt is not None else {"kind": "none"}
         what = self._describe(info)
@@ -772,9 +802,72 @@ class Session:
             yield from self.gap()
         yield from self.host.idle(10)
 
+    # -------------------------------------------------------------------------------------- non-interference replay
+    def set_focus(self, key):
+        """Record the own transactions of OUT endpoint `key` for replay_focus(); its consumer is kept always ready so
+        that the delivered (byte, first, last) sequence cannot depend on anything but the packets it receives."""
+        self.focus = key
+        self.cfg["consumer"][key[0]] = "always"
+
+    def replay_focus(self):
+        """Replay ONLY the focus endpoint's own transactions (same packets, same byte timing, device address 0) on a
+        second, fresh, identically configured device and return the (byte, first, last) sequence it delivers."""
+        import random as _random
+        from rv.core import Result
+        key = self.focus
+        twin = Session(_random.Random(self.cfg["order_seed"] * 7919 + 13), Result(0), cfg=self.cfg)
+        for k in twin.stream_keys("in"):
+            twin.feed_hold[k] = True                    # no IN data needed: nobody polls the IN endpoints
+        h, n = twin.host, key[0]
+
+        def driver():
+            yield from twin.start()
+            for step in self.focus_script:
+                gaps, lead = step["token"]
+                if step["kind"] == "ping":
+                    yield from h.send_raw(U.token(U.PING, 0, n), gaps=list(gaps), lead=lead)
+                else:
+                    yield from h.send_raw(U.token(U.OUT, 0, n), gaps=list(gaps), lead=lead)
+                    yield from h.idle(step["idle"])
+                    if step["data"] is not None:
+                        gaps, lead = step["detail"]
+                        yield from h.send_raw(step["data"], gaps=list(gaps), lead=lead)
+                yield from h.wait_response(twin.window)
+                yield from twin.drain(key)
+                yield from twin.gap()
+            yield from twin.drain(key)
+            yield from h.idle(10)
+
+        twin.b.add_driver(driver())
+        twin.b.run()
+        self.twin_cycles = twin.b.cycle
+        return twin.models[key].framing
+
+    def check_framing_noninterference(self):
+        """The focus endpoint's delivered (byte, first, last) sequence must be the same with and without the other
+        endpoints' traffic (projection oracle for the stream framing; single-endpoint framing rules are C13's)."""
+        res, key = self.res, self.focus
+        mixed = list(self.models[key].framing)
+        alone = self.replay_focus()
+        res.event("out_framing_replays")
+        res.event("out_framing_beats_compared", min(len(mixed), len(alone)))
+        res.event("out_framing_first_flags", sum(1 for b in mixed if b[1]))
+        res.event("out_framing_last_flags", sum(1 for b in mixed if b[2]))
+        if mixed == alone:
+            return
+        i = next((j for j in range(min(len(mixed), len(alone))) if mixed[j] != alone[j]), min(len(mixed), len(alone)))
+        if [b[0] for b in mixed] != [b[0] for b in alone]:
+            mech = "out_data_depends_on_other_endpoint_traffic"
+        else:
+            mech = "out_framing_depends_on_other_endpoint_traffic"
+        res.violation(mech, "OUT ep=%d (mps %d): delivered (byte,first,last) sequence differs from the replay of its own %d transactions "
+                      "alone at beat %d of %d/%d: with other traffic %s, alone %s; ops=%s"
+                      % (key[0], self.models[key].mps, len(self.focus_script), i, len(mixed), len(alone),
+                         mixed[max(0, i - 2):i + 3], alone[max(0, i - 2):i + 3], self.ops_log[-14:]))
+
     def finish(self):
         res, b = self.res, self.b
-        res.cycles = b.cycle
+        res.cycles = b.cycle + getattr(self, "twin_cycles", 0)
         if b.hit_max_cycles:
             res.violation("harness_max_cycles", "session did not finish in %d cycles" % b.max_cycles)
         res.desc = {"config": {k: (v if not isinstance(v, dict) else {str(a): c for a, c in v.items()}) for k, v in self.cfg.items()},
